@@ -18,9 +18,14 @@ CFG = dict(
              "reference Kubernetes NetworkPolicy semantics and Calico rule semantics in coq/theories/C29/Spec.v (read them)",
              "the real selector parser (libcalico-go/lib/selector/parser) used by the driver to turn selector strings into ASTs",
              "Go driver harness/C29 (overlay build, tag verif)"],
-    assumptions=["an address identifies at most one pod (both semantics are stated over the connection's end points)",
-                 "label keys used in selectors are not Calico-reserved (pcns./pcsa. prefixes, projectcalico.org/{namespace,orchestrator,serviceaccount,name})",
-                 "policyTypes present or no egress rules (API-server defaulting); ports valid per the Kubernetes API validation"],
+    assumptions=["an address identifies at most one endpoint (both semantics are stated over the connection's end points; "
+                 "c29_rule_bridge: `who` maps an address to its endpoint)",
+                 "main theorem hypotheses: the policies pass the Kubernetes API validation (Spec.k8s_np_valid), their selectors use no "
+                 "Calico-reserved label key (pcns./pcsa. prefixes, projectcalico.org/{namespace,orchestrator,serviceaccount}; "
+                 "projectcalico.org/name in namespace selectors), and on the pinned tree policyTypes is present or there are no egress rules",
+                 "c29_rule_bridge (Section Bridge): IP-set ids are an interning of (selector | named port) specs: resolve (intern s) = Some s",
+                 "the namespace profile kns.<ns> is the endpoint's first profile and allows everything (checked on the real NamespaceToProfile output "
+                 "by the driver: k_impl_clean)"],
 )
 
 def classify(line):
@@ -58,8 +63,11 @@ def run(ctx):
 MANIFEST = dict(
     category="proof",
     text="Theorems over an executable model of the Kubernetes NetworkPolicy -> Calico conversion (conversion.go followed by the "
-         "update processors): for every policy set, cluster labelling and connection the converted policies allow exactly what the "
-         "Kubernetes NetworkPolicy semantics allow; plus a correspondence run of the model against the real conversion code and an "
-         "evaluation of the real converted policies against the Kubernetes semantics on generated connections.",
+         "update processors, pod -> workload endpoint labels, namespace / service account -> profile labels): for every set of "
+         "NetworkPolicies, cluster labelling and connection the converted policies allow exactly what the Kubernetes NetworkPolicy "
+         "semantics allow (ingress and egress, selectors, ipBlock/except, merged ports, named ports, protocol grouping, policy types, "
+         "any evaluation order), a bridge to the shared PolicyRef rule semantics, refutations showing which hypotheses are necessary; "
+         "plus a correspondence run of the model against the real conversion code and an evaluation of the REAL converted policies, "
+         "labels and profiles against the Kubernetes semantics on generated connections.",
     note="Trusted: Coq kernel; the two reference semantics in Spec.v; the model is tied to the code only by the correspondence run.",
 )
